@@ -305,6 +305,7 @@ void item_fill_job(const struct item *it, IMB_JOB *job);
 int item_check(struct item *it, const IMB_JOB *job, const char *prop, struct mmgr *mm,
                const char *ctx);
 const char *item_describe(const struct item *it); /* JSON object text */
+uint64_t item_output_hash(const struct item *it);
 void item_mismatch_key(const struct item *it, const char *prop, const char *variant, int is_tag, char *key, size_t n);
 int item_is_parking(const struct item *it, int variant);
 const char *item_fault_suite(const struct item *it, const char *kind);
